@@ -71,13 +71,19 @@ GevMaximal(phix, phin, w, p) ==
 Identity(n) == [i \in 1..n |-> [j \in 1..n |-> IF i = j THEN One ELSE ZZero]]
 PcaOK(phi, w) == GevOK(phi, Identity(Len(w)), w)
 \* BAN: out = g w (g real > 0) and g^2 (w^H Phi w)^2 = |Phi w|^2
+\* (error scales: both w^H Phi w and Phi w cancel for the vectors the eigen-solvers return on ill-conditioned noise PSDs)
 BanOK(phin, w, out) ==
-  LET q == QuadS(phin, w) pw == MatVec(phin, w)
+  LET q == QuadS(phin, w) pws == MatVecS(phin, w)
+      pw == [i \in 1..Len(w) |-> pws[i][1]]
       g == ZDotS(w, out)                 \* w^H out = g |w|^2
       gn == FDiv(g[1][1], Norm2(w))
+      lhs == FMul(FSq(gn), FSq(q[1][1]))
+      n2 == Norm2(pw)
+      n2sc == FSum([i \in 1..Len(w) |-> FMul(ZAbs1(pw[i]), pws[i][2])])
+      qerr == FMul(FMul(FSq(gn), FAbs(q[1][1])), q[2])
   IN  /\ Parallel(out, w, SLK)
       /\ RealPos(g[1], g[2], SLK)
-      /\ CloseRel(FMul(FSq(gn), FSq(q[1][1])), Norm2(pw), SLK * 4)
+      /\ Close(lhs, n2, FAdd(FAdd(lhs, n2), FMul(FInt(2), FAdd(n2sc, qerr))), SLK * 4)
 RankOneOK(r1, slack) ==
   /\ Hermitian(r1, slack)
   /\ \A i, j, k, m \in 1..Len(r1) : (i < j /\ k < m) =>
